@@ -645,7 +645,8 @@ class Timings:
         rngs = jax.random.split(rng, num=len(nodes))
         for idx, (n, s) in enumerate(sizes.items()):
             assert n in nodes, f"Node `{n}` not found in nodes."
-            buffer_size = max(s) + extra_padding if len(s) > 0 else max(1, extra_padding)
+            # An output that is only read before it is first written yields a non-positive minimal size: one slot is still needed.
+            buffer_size = max(max(s), 1) + extra_padding if len(s) > 0 else max(1, extra_padding)
             assert buffer_size > 0, f"Buffer size for node `{n}` is 0."
             b = jax.tree_util.tree_map(stack_fn, *[nodes[n].init_output(rngs[idx], graph_state=graph_state)] * buffer_size)
             buffers[n] = b
